@@ -11,6 +11,7 @@ import (
 	"sort"
 	"strings"
 	"sync"
+	"testing"
 )
 
 // forAllSeq calls fn for EVERY sequence over {0..alpha-1} of every length 1..maxLen (no sampling),
@@ -151,4 +152,34 @@ func (v *vset) flush(rep interface {
 	}
 }
 
-var _ = fmt.Sprintf
+// parallelShards runs fn(shard) for shard in [0,n) as parallel subtests (each has its own *testing.T, which
+// testing/synctest needs) and returns when all of them are done.
+func parallelShards(t *testing.T, n int, fn func(t *testing.T, shard int)) {
+	t.Run("shards", func(t *testing.T) {
+		for i := 0; i < n; i++ {
+			i := i
+			t.Run(fmt.Sprintf("s%d", i), func(t *testing.T) {
+				t.Parallel()
+				fn(t, i)
+			})
+		}
+	})
+}
+
+// seqsWithFirst returns every sequence of length 1..maxLen over {0..alpha-1} whose first symbol is `first`.
+func seqsWithFirst(alpha, maxLen, first int, emit func(seq []int)) {
+	seq := []int{first}
+	var rec func()
+	rec = func() {
+		emit(append([]int(nil), seq...))
+		if len(seq) == maxLen {
+			return
+		}
+		for s := 0; s < alpha; s++ {
+			seq = append(seq, s)
+			rec()
+			seq = seq[:len(seq)-1]
+		}
+	}
+	rec()
+}
